@@ -295,3 +295,16 @@ Lemma ex_first_is_range :
   end = true
   /\ forallb (fun ne => if mkey_dec (ne_mk ne) ex_b then false else true) (g_errs ex_graph) = true.
 Proof. vm_compute. split; reflexivity. Qed.
+
+(* the witness of F-C07-2 resolves in two passes; the final requirement list of p:p is [1; 2] (1 is left over from
+   the abandoned pass) and, as C07_final_list_decides says, the edge of p:p points to what findMatch answers on it *)
+Definition w2_reqs : reqmap := Eval vm_compute in
+  fst (resolve_full (tc_version w2_tables) (tc_versions w2_tables) (tc_requirements w2_tables) (tc_simple w2_tables)
+                    (tc_match w2_tables) (tc_less w2_tables) 50 w2_root).
+Lemma w2_full :
+  resolve_full (tc_version w2_tables) (tc_versions w2_tables) (tc_requirements w2_tables) (tc_simple w2_tables)
+               (tc_match w2_tables) (tc_less w2_tables) 50 w2_root = (w2_reqs, Ok w2_graph)
+  /\ map vk_ver (reqs_of w2_reqs w2_k) = [[49]; [50]]
+  /\ length (filter (on_k w2_k) (g_edges w2_graph)) = 1%nat
+  /\ forallb (fun ne => if mkey_dec (ne_mk ne) w2_k then false else true) (g_errs w2_graph) = true.
+Proof. vm_compute. repeat split; reflexivity. Qed.
